@@ -31,7 +31,7 @@ pub struct Config {
     /// per-loop override of the element binding mode: "ref" | "val" | "keep"
     pub loopmode: BTreeMap<u64, String>,
     /// R4 lambda lifting: closure ordinal -> (lifted fn name, extra params text, extra args text)
-    pub lift: BTreeMap<u64, (String, String, String)>,
+    pub lift: BTreeMap<u64, (String, String, String, String)>,
     /// R3 desugaring of `.iter().any(closure)` for the given closure ordinals into loops
     pub any_to_loop: BTreeSet<u64>,
     /// R3 general: iterator chains (numbered in pre-order among the chains of the function) to desugar into one loop;
@@ -41,6 +41,8 @@ pub struct Config {
     pub iter_to_vec: bool,
     /// type ascriptions added to un-annotated `let NAME = ..` bindings (first binding of that name), checked by rustc
     pub let_types: Vec<(String, String)>,
+    /// R10: expand derive(Clone) of a fieldless enum into its definitional impl with `ensures r == *self` (verified by Verus)
+    pub expand_clone: bool,
     /// R9: functions (by name) that return Vec after R9; `f(..).collect()` on them is the identity and is dropped
     pub vec_fns: Vec<String>,
     /// method renames `name` -> `new_name` (receiver-independent, checked by rustc in Verus)
@@ -141,6 +143,7 @@ impl Config {
                         v["name"].as_str().unwrap_or("").to_string(),
                         v["params"].as_str().unwrap_or("").to_string(),
                         v["args"].as_str().unwrap_or("").to_string(),
+                        v["ret"].as_str().unwrap_or("bool").to_string(),
                     ),
                 );
             }
@@ -151,6 +154,7 @@ impl Config {
             }
         }
         c.iter_to_vec = item["iter_to_vec"].as_bool().unwrap_or(false);
+        c.expand_clone = item["expand_clone"].as_bool().unwrap_or(false);
         if let Some(m) = item["let_types"].as_object() {
             for (k, v) in m {
                 c.let_types.push((k.clone(), v.as_str().unwrap_or("").to_string()));
@@ -941,6 +945,7 @@ enum Adapter {
     FilterMap(syn::ExprClosure),
     Enumerate,
     Copied,
+    Cloned,
 }
 enum Consumer {
     Any(syn::ExprClosure),
@@ -949,6 +954,8 @@ enum Consumer {
     ForEach(syn::ExprClosure),
     ForBody(syn::Pat, syn::Block),
     Next,
+    /// `V.extend(chain)`: push every element
+    ExtendInto(syn::Expr),
 }
 enum ChainSrc {
     Iter(syn::Expr),  // X.iter()
@@ -987,7 +994,8 @@ fn parse_adapters(e: &syn::Expr) -> Option<(ChainSrc, Vec<Adapter>)> {
                     ("filter", 1) => closure_of(&mc.args[0]).map(|c| (Adapter::Filter(c), (*mc.receiver).clone())),
                     ("filter_map", 1) => closure_of(&mc.args[0]).map(|c| (Adapter::FilterMap(c), (*mc.receiver).clone())),
                     ("enumerate", 0) => Some((Adapter::Enumerate, (*mc.receiver).clone())),
-                    ("copied", 0) | ("cloned", 0) => Some((Adapter::Copied, (*mc.receiver).clone())),
+                    ("copied", 0) => Some((Adapter::Copied, (*mc.receiver).clone())),
+                    ("cloned", 0) => Some((Adapter::Cloned, (*mc.receiver).clone())),
                     ("iter", 0) => {
                         adapters.reverse();
                         return Some((ChainSrc::Iter((*mc.receiver).clone()), adapters));
@@ -1059,6 +1067,38 @@ impl<'a> LoopPass<'a> {
         body.push(quote!(#i_id = #i_id + 1;));
         let mut n = 0;
         let mut inline = |this: &mut Self, c: &syn::ExprClosure, arg: TokenStream| -> Result<TokenStream, String> {
+            let ck = this.closures;
+            this.closures += 1;
+            this.closure_params.push(c.inputs.to_token_stream().to_string());
+            if let Some((name, params, args, ret)) = this.cfg.lift.get(&ck).cloned() {
+                // R4: the closure body becomes a function of its own (own contract, own anchors)
+                if c.inputs.len() != 1 {
+                    return Err("unsupported construct: closure arity in iterator chain".into());
+                }
+                let cpat = match &c.inputs[0] {
+                    syn::Pat::Type(pt) => (*pt.pat).clone(),
+                    p => p.clone(),
+                };
+                let mut body = match &*c.body {
+                    syn::Expr::Block(b) => b.block.clone(),
+                    other => syn::parse_quote!({ #other }),
+                };
+                this.visit_block_mut(&mut body);
+                let body_stmts = &body.stmts;
+                let fname = syn::Ident::new(&name, Span::call_site());
+                let extra_params: TokenStream = params.parse().map_err(|_| "bad recipe: lift params".to_string())?;
+                let extra_args: TokenStream = args.parse().map_err(|_| "bad recipe: lift args".to_string())?;
+                let ret_ty: syn::Type = syn::parse_str(&ret).map_err(|e| format!("bad recipe: lift ret: {}", e))?;
+                let lifted: syn::ItemFn = syn::parse_quote!(
+                    fn #fname(#extra_params) -> #ret_ty {
+                        let #cpat = __elem;
+                        #(#body_stmts)*
+                    }
+                );
+                this.lifted.push(lifted);
+                bump(this.counts, "R4.lambda_lift_map");
+                return Ok(quote!(#fname(#arg, #extra_args)));
+            }
             if has_return(&c.body) {
                 return Err("unsupported construct: `return`/`?` inside a closure of a desugared iterator chain (use lift)".into());
             }
@@ -1097,6 +1137,10 @@ impl<'a> LoopPass<'a> {
                 }
                 Adapter::Copied => {
                     body.push(quote!(let #nxt = *#cur;));
+                    cur = nxt;
+                }
+                Adapter::Cloned => {
+                    body.push(quote!(let #nxt = #cur.clone();));
                     cur = nxt;
                 }
             }
@@ -1165,6 +1209,17 @@ impl<'a> LoopPass<'a> {
                     #r_id
                 })
             }
+            Consumer::ExtendInto(recv) => {
+                syn::parse_quote!({
+                    let #s_id = #seq_init;
+                    let mut #i_id: usize = 0;
+                    while #i_id < #s_id.len() {
+                        #marker
+                        #(#body)*
+                        #recv.push(#cur);
+                    }
+                })
+            }
             Consumer::ForEach(c) => {
                 let e = inline(self, &c, quote!(#cur))?;
                 syn::parse_quote!({
@@ -1214,6 +1269,22 @@ impl<'a> LoopPass<'a> {
                 }
             }
             return None;
+        }
+        // `V.extend(X.iter().cloned())`
+        if let syn::Expr::MethodCall(mc) = e {
+            if mc.method == "extend" && mc.args.len() == 1 {
+                if let Some((src, adapters)) = parse_adapters(&mc.args[0]) {
+                    if matches!(src, ChainSrc::Iter(_)) {
+                        let c = self.chains_seen;
+                        self.chains_seen += 1;
+                        let mode = self.cfg.chains.get(&c).cloned()?;
+                        return match self.build_chain(src, adapters, Consumer::ExtendInto((*mc.receiver).clone()), &mode) {
+                            Ok(x) => Some(x),
+                            Err(m) => { self.err = Some(m); None }
+                        };
+                    }
+                }
+            }
         }
         let (src, adapters, consumer) = parse_chain(e)?;
         let c = self.chains_seen;
@@ -1284,7 +1355,7 @@ impl<'a> LoopPass<'a> {
             _ => return None,
         };
         let ck = self.closures; // ordinal this closure would get
-        if let Some((name, params, args)) = self.cfg.lift.get(&ck).cloned() {
+        if let Some((name, params, args, _ret)) = self.cfg.lift.get(&ck).cloned() {
             // R4: lambda-lift the closure body into a function; the call site becomes an index loop
             self.closures += 1;
             self.closure_params.push(cl.inputs.to_token_stream().to_string());
@@ -1358,6 +1429,35 @@ impl<'a> LoopPass<'a> {
 }
 
 impl<'a> VisitMut for LoopPass<'a> {
+    fn visit_local_mut(&mut self, l: &mut syn::Local) {
+        // `let xs = X.iter().map(closure);` (a lazy iterator later consumed by a quote! repetition): collected into a Vec
+        if !self.cfg.chains.is_empty() {
+            if let Some(init) = &mut l.init {
+                if parse_chain(&init.expr).is_none() {
+                    if let Some((src, adapters)) = parse_adapters(&init.expr) {
+                        if !adapters.is_empty() {
+                            let c = self.chains_seen;
+                            self.chains_seen += 1;
+                            if let Some(mode) = self.cfg.chains.get(&c).cloned() {
+                                match self.build_chain(src, adapters, Consumer::Collect, &mode) {
+                                    Ok(x) => {
+                                        init.expr = Box::new(x);
+                                        bump(self.counts, "R9.lazy_iter_to_vec");
+                                        return;
+                                    }
+                                    Err(m) => {
+                                        self.err = Some(m);
+                                        return;
+                                    }
+                                }
+                            }
+                        }
+                    }
+                }
+            }
+        }
+        visit_mut::visit_local_mut(self, l);
+    }
     fn visit_expr_mut(&mut self, e: &mut syn::Expr) {
         if let Some(new) = self.try_chain(e) {
             *e = new;
@@ -1798,11 +1898,21 @@ pub fn apply_to_fn(
                 let acfg = Config { anchors: lifted_anchors.clone(), ..Config::default() };
                 let mut ap = AnchorPass { cfg: &acfg, seen_calls: BTreeMap::new(), placed: vec![], returns: 0, iflets: 0 };
                 ap.visit_block_mut(&mut lf.block);
+                if lifted_anchors.iter().any(|(kd, _, _)| kd == "before_tail") {
+                    match lf.block.stmts.last() {
+                        Some(syn::Stmt::Expr(_, None)) => {
+                            let n = lf.block.stmts.len();
+                            lf.block.stmts.insert(n - 1, anchor_stmt("before_tail", "t", 0));
+                        }
+                        _ => return Err("lost anchor: lifted closure has no tail expression for anchor before_tail".into()),
+                    }
+                }
                 for (kd, n, m) in &lifted_anchors {
                     let key = match kd.as_str() {
                         "after_call" => format!("after_call_{}_{}", n, m),
                         "before_return" => format!("before_return_r_{}", m),
                         "iflet_head" => format!("iflet_head_b_{}", m),
+                        "before_tail" => continue,
                         other => return Err(format!("bad recipe: unknown lifted anchor kind {}", other)),
                     };
                     if !ap.placed.contains(&key) {
@@ -1954,7 +2064,32 @@ pub fn apply_to_item_and_print(mut it: syn::Item, cfg: &Config, counts: &mut Cou
         let mut p = StringPass { counts };
         p.visit_item_mut(&mut it);
     }
-    Ok(crate::printer::print_tokens(it.to_token_stream()))
+    let mut extra = String::new();
+    if cfg.expand_clone {
+        if let syn::Item::Enum(e) = &mut it {
+            if e.variants.iter().all(|v| matches!(v.fields, syn::Fields::Unit)) {
+                // drop Clone from the derive list
+                for a in e.attrs.iter_mut() {
+                    if a.path().is_ident("derive") {
+                        if let syn::Meta::List(l) = &a.meta {
+                            let kept: Vec<String> = l.tokens.to_string().split(',').map(|d| d.trim().to_string()).filter(|d| !d.is_empty() && d != "Clone").collect();
+                            let ids: Vec<syn::Path> = kept.iter().filter_map(|d| syn::parse_str(d).ok()).collect();
+                            *a = syn::parse_quote!(#[derive(#(#ids),*)]);
+                        }
+                    }
+                }
+                let name = &e.ident;
+                let arms: Vec<String> = e.variants.iter().map(|v| format!("{n}::{v} => {n}::{v},", n = name, v = v.ident)).collect();
+                extra = format!("impl Clone for {n} {{\n    fn clone(&self) -> (r: {n})\n        ensures r == *self\n    {{ match self {{ {arms} }} }}\n}}\n", n = name, arms = arms.join(" "));
+                bump(counts, "R10.expand_clone");
+            } else {
+                return Err("unsupported construct: expand_clone on an enum with fields".into());
+            }
+        } else {
+            return Err("unsupported construct: expand_clone on a non-enum".into());
+        }
+    }
+    Ok(crate::printer::print_tokens(it.to_token_stream()) + &extra)
 }
 
 // ------------------------------------------------------------------------------------------
